@@ -10,36 +10,52 @@ from ..core import Case
 
 ID = 'C01'
 MANIFEST = {
-    'text': ('Coq theorems about an executable heap model (buffers, ndarray handles with their own flags.writeable, containers, caller-held '
-             'handles; SF/Heap.v): C01_frozen_invariant (after EVERY guarded history of constructions through immutable_filter / own_data, '
-             'derivations by view or fresh array, exposures, caller views / freezes / writes, pickle and deepcopy round trips and failing '
-             'calls, no buffer a container can see has a writeable handle anywhere), C01_immutability (content and flags seen through an '
-             'existing container never change, for every history), C01_exposed_readonly, C01_container_arrays_readonly, '
-             'C01_caller_isolation. Correspondence: random and exhaustive small histories executed on the real library through public calls '
-             '(np.array / views / flags / writes by the caller; Series, Index, Frame, TypeBlocks constructors; selections; .values / '
-             '.positions; pickle; deepcopy), the whole observation trace (content + flags of every caller array and every container slot '
-             'after every step, np.shares_memory matrix) compared with the model M and with the value-semantics specification S evaluated '
-             'inside Coq.'),
-    'note': ('trusted: Coq kernel, hand-written model SF/Heap.v, harness. NumPy facts are modelling assumptions validated only by the '
-             'correspondence runs (see assumptions). PARTIAL: that each of the ~160 freeze sites of the library follows the protocol is '
-             'decided by enumeration (interface x zoo strata, Python-side observation), not by proof.'),
-    'technique': 'invariant over histories of a heap model + differential traces',
+    'text': ('Coq theorems about an executable heap model (buffers, ndarray handles each with its own flags.writeable, containers as lists of '
+             'array slots, caller-held handles; SF/Heap.v) with TWO machines: M = what static-frame does (immutable_filter copies only writeable '
+             'arguments, read-only arguments / views / exposed arrays are shared, own_data freezes in place, __setstate__ re-freezes the slots '
+             'listed in the table REGENERATED from the source, array_deepcopy carries the flag) and S = value semantics (every slot and every '
+             'array handed out is a private frozen copy). Unbounded in history length: C01_frozen_invariant, C01_immutability (content and flags '
+             'seen through an existing container never change), C01_refines_value_semantics (M and S agree on the outcome of every step and on '
+             'every observation after every step of every guarded history), C01_exposed_readonly, C01_container_arrays_readonly, '
+             'C01_caller_isolation, C01_pickle_roundtrip / C01_deepcopy_roundtrip (same content, read-only, private), '
+             'C01_setstate_refreezes_blocks_and_values (about the regenerated table), C01_no_protect_site_lost / C01_thaw_sites_whitelisted '
+             '(census of the ~160 freeze sites regenerated from the AST vs the pinned table). Refuted/C01.v: the three hypotheses of `guarded` are '
+             'necessary (read-only alias, own_data alias, a slot __setstate__ does not re-freeze). Correspondence: (1) random + exhaustive '
+             'constructor-route histories executed on the real library through public calls, whole observation trace and np.shares_memory matrix '
+             'compared with M and S inside Coq; (2) EXHAUSTIVE INTERFACE ENUMERATION: every member listed by static-frame\'s own InterfaceSummary for '
+             'Series, SeriesHE, Frame, FrameGO, FrameHE, Index, IndexGO, IndexDate..., IndexHierarchy(GO), TypeBlocks, recursively through selector / '
+             'assignment / iterator / accessor nodes, crossed with a container zoo (every dtype kind, block layouts, 0-sized, flat / hierarchical / '
+             'date labels) and per-parameter argument pools (valid and failing, writeable ndarrays wherever an array is accepted), deep snapshot of '
+             'the receiver and of bystanders sharing its memory before / after every call, flags and aliasing of every ndarray reachable from every '
+             'result, pickle / deepcopy round trips per array slot, mutation syntax.'),
+    'note': ('trusted: Coq kernel, hand-written model SF/Heap.v (tied to the code by the trace correspondence), AST extractor generate() in this module, '
+             'harness. NumPy facts are modelling assumptions validated only by the correspondence runs. PARTIAL: that each of the ~160 freeze sites '
+             'follows the protocol is decided by the enumeration (Python-side observation, argument pools sampled in rotation) and by the census '
+             'tripwire, not by proof; members *_pool (process pools), to_clipboard / from_clipboard, explicit __init__ / __setstate__ calls on a live '
+             'instance and @ on object-valued receivers (NumPy segfault) are not exercised. Seven known findings (known/C01.jsonl).'),
+    'technique': 'invariant + refinement over histories of a heap model; differential traces; exhaustive interface enumeration',
 }
 PROPERTY_FILES = ['Properties/C01.v']
 REFUTED_FILES = ['Refuted/C01.v']
 MODEL_FILES = ['SF/Heap.v', 'SF/HeapAudit.v', 'Gen/Gen_c01.v']
 IMPORTS = 'Require Import SF.Prelude SF.Heap Gen.Gen_c01.\nLocal Open Scope nat_scope.'
-RULE = ('heap strata: a history is a list of steps of the model alphabet, each executed on the real library by a public call; '
-        'non-trivial = the history builds at least one container from a caller-held array and later the caller writes, or exposes, or '
-        'round-trips; distinct = distinct step list')
+RULE = ('heap strata: a history is a list of steps of the model alphabet (SNew / SView / SFreeze / SWrite / SConstruct / SDerive / SExpose / SFail), each '
+        'executed on the real library by a public call; the stratum of a history (guarded, read-only alias, own_data alias, pickle of an Index) is decided '
+        'by bookkeeping of the HISTORY, never from the output; non-trivial = builds a container from a caller-held array and then writes / exposes / '
+        'derives; distinct = distinct step list. api strata: one case per (zoo container, interface member path, check) where check is one of '
+        'state-unchanged / container-arrays-readonly / bare-array-readonly / no-caller-alias; non-trivial = at least one call of the member returned; '
+        'argument alternatives are taken in rotation so that every alternative of every parameter is used on some receiver. roundtrip strata: one case '
+        'per (zoo container, pickle | deepcopy, array slot name). coverage:interface: InterfaceSummary records exercised / returned at least once.')
 ASSUMPTIONS = [
     'NumPy: a basic-indexing view shares the buffer of its base and inherits flags.writeable at creation',
     'NumPy: writing through a non-writeable ndarray raises ValueError and changes nothing',
     'NumPy: copy / astype / fancy indexing / np.array(list) / unpickling return a fresh buffer',
     'alphabet exclusion: the caller never sets flags.writeable = True (NumPy allows it on arrays that own their data, e.g. on s.values)',
-    'alphabet exclusion: no assignment to attributes of a container (Series.values is a plain slot attribute)',
+    'alphabet exclusion (stated hypothesis, refuted witness C01_own_data_view_refuted): own_data=True hands over the only writeable reference',
+    'the model abstracts auto-index labels / positions (views of the global PositionsAllocator buffer) as private frozen arrays; their aliasing is masked in the shares matrix',
+    'cells of object arrays holding mutable Python objects are outside the property (only ndarrays are tracked)',
 ]
-TRUSTED = []
+TRUSTED = ['tools/sfv/props/c01.py generate(): AST extraction of __setstate__ freeze statements and of the freeze-site census (fails closed on an unknown shape)']
 EXHAUSTIVE = {'quick': False, 'thorough': False}
 
 
